@@ -50,6 +50,29 @@ func propC04(run *Run, n int) {
 			if r.Chance(1, 4) {
 				a, b = VArr(a, VNum(1)), VArr(VNum(1), b)
 			}
+		case 4: // multiplicities: every element repeated k times vs other elements repeated k times
+			k := 2 + r.Intn(2)
+			x, y := cfg.scalar(r), cfg.scalar(r)
+			a, b = VArr(), VArr()
+			a.A, b.A = []*Val{}, []*Val{}
+			for j := 0; j < k; j++ {
+				a.A = append(a.A, x.Clone())
+				b.A = append(b.A, y.Clone())
+			}
+			if r.Chance(1, 2) {
+				z := cfg.scalar(r)
+				a.A = append(a.A, z)
+				b.A = append(b.A, z.Clone())
+			}
+			if r.Chance(1, 3) { // nested bags are compared by hash only
+				a, b = VArr(a), VArr(b)
+			}
+			if r.Chance(1, 4) {
+				b.A = b.A[:0]
+				if len(a.A) > 0 && a.A[0].K == KArr {
+					b.A = append(b.A, VArr())
+				}
+			}
 		case 3: // constructed alias: singleton set vs the number whose bits are the member's hash
 			m := cfg.scalar(r)
 			h := jd.VerifHashCode(mustNode(m.Wire()), c.o.Go())
@@ -454,6 +477,10 @@ func propC07(run *Run, n int) {
 		cfg := ch.cfg()
 		cfg.ScalarBias = 4
 		a, b := cfg.Pair(r)
+		if (ch.o.Has("S") || ch.o.Has("B") || ch.o.Has("K")) && r.Chance(1, 3) {
+			// equal-as-sets parts: permute arrays of b at every depth (a real difference may remain elsewhere)
+			permuteDeep(r, b, false)
+		}
 		addC07Case(run, ch.o, ch.label, a, b)
 	}
 }
